@@ -35,7 +35,13 @@ inductive Expr where
   | call (fn : String) (args : List Expr)   -- text of the shape `fn(a, b, …)` written by a planner
   | orderBy (e : Expr) (d : Dir)            -- OrderBy
   | sub (s : Sel)                           -- a sub-select used as an object
-  | setop (kind : String) (sels : List Sel) -- `(s1 INTERSECT s2 …)` / `(s1 UNION ALL s2 …)`, operands with their own WITH
+  -- added for the TraceQL planner (C11); rendering of everything above is unchanged
+  | callT (fn : String) (args : List Expr)  -- text of the shape `fn(a,b,…)` (no blank after the comma): bitAnd, match, …
+  | bitSet (cs : List Expr) (alias : String) -- groupBitOr{bitSet}: `groupBitOr(bitShiftLeft(toUInt64(c₀),0)+…) as alias`
+  | setOp (op : String) (ss : List Sel)     -- intersect / union: `(s₀ OP s₁ …)`, every operand with its own WITH
+  | arrayJoin (src arr : Expr)              -- `From(src).Join(NewJoin("array", arr, nil))`: `src array JOIN arr `
+  | anyIfNum (key : Bytes)                  -- sqlAttrValue: `anyIf(toFloat64OrNull(val), key == '<key>')`
+  | distinct (e : Expr)                     -- `distinct e` inside count(…)
 inductive Sel where
   | mk (withs : List (Alias × Sel)) (distinct : Bool) (cols : List Expr) (from_ : Option Expr)
        (joins : List (String × Alias × Expr)) (preWhere wher : Option Expr) (groupBy : List Expr)
@@ -73,10 +79,12 @@ def renderExpr : Expr → Bytes
   | .call fn args => b fn ++ b "(" ++ joinB (b ", ") (renderExprs args) ++ b ")"
   | .orderBy e d => renderExpr e ++ (match d with | .asc => b " asc" | .desc => b " desc")
   | .sub s => renderSel s
-  | .setop k ss => b "(" ++ joinB (b " " ++ b k ++ b " ") (renderSels ss) ++ b ")"
-def renderSels : List Sel → List Bytes
-  | [] => []
-  | s :: ss => renderSel s :: renderSels ss
+  | .callT fn args => b fn ++ b "(" ++ joinB (b ",") (renderExprs args) ++ b ")"
+  | .bitSet cs a => b "groupBitOr(" ++ joinB (b "+") (renderShiftT 0 cs) ++ b ")" ++ (if a.isEmpty then [] else b " as " ++ b a)
+  | .setOp op ss => b "(" ++ joinB (b " " ++ b op ++ b " ") (renderSels ss) ++ b ")"
+  | .arrayJoin src arr => renderExpr src ++ b " array JOIN " ++ renderExpr arr ++ b " "
+  | .anyIfNum k => b "anyIf(toFloat64OrNull(val), key == " ++ quote k ++ b ")"
+  | .distinct e => b "distinct " ++ renderExpr e
 def renderExprs : List Expr → List Bytes
   | [] => []
   | o :: os => renderExpr o :: renderExprs os
@@ -86,6 +94,12 @@ def renderParens : List Expr → List Bytes
 def renderShift (i : Nat) : List Expr → List Bytes
   | [] => []
   | o :: os => (b "bitShiftLeft(toUInt64(" ++ renderExpr o ++ b "), " ++ natDigits i ++ b ")") :: renderShift (i + 1) os
+def renderShiftT (i : Nat) : List Expr → List Bytes
+  | [] => []
+  | o :: os => (b "bitShiftLeft(toUInt64(" ++ renderExpr o ++ b ")," ++ natDigits i ++ b ")") :: renderShiftT (i + 1) os
+def renderSels : List Sel → List Bytes
+  | [] => []
+  | s :: ss => renderSel s :: renderSels ss
 def renderWiths : List (Alias × Sel) → List Bytes
   | [] => []
   | (a, s) :: ws => (b a.text ++ b " as (" ++ renderSelBody s ++ b ")") :: renderWiths ws
